@@ -4,12 +4,15 @@
 // Line grammar (blank separated words):
 //
 //	<op> <ft> L <N>                      A <poly> B <poly>      lattice mode  (exhaustive cell check on [0,N]^2)
+//	<op> <ft> LT <N> <k> <ox> <oy>       A <poly> B <poly>      lattice mode, coordinates = (lattice + (ox,oy)) * 2^k
 //	<op> <ft> P <margin> <k> (<x> <y>)*k A <poly> B <poly>      points mode   (sample points, margin filtered in Lean)
+//	chain <ft> L <N> <m> (P <poly>)*m (S <op> <i>[c] <j>[c])*   chain of calls reusing results as operands (lattice)
 //	op   := u | i | s | x            ft := f32 | f64
-//	poly := <contours> (<vertices> (<x> <y>)*vertices)*contours
+//	poly := nil | <contours> (<vertices> (<x> <y>)*vertices)*contours
 //	num  := h<hex IEEE bits (8 digits = float32, 16 = float64)> | <int> | <int>/<power of two>
 //
 // Output: `R <poly>` (numbers as h<bits> of the operand float type) or `operands-modified` / `empty-mismatch` /
+// `result-aliases-operand` /
 // `panic` / `bad-op`; the process exits with status 124 when a call exceeds the watchdog limit.
 package main
 
@@ -93,10 +96,18 @@ func (t *tokens) count(limit int) int {
 	return n
 }
 
-func parsePoly[T constraints.Float](t *tokens) poly.Polygon[T] {
+// parsePoly parses one polygon.  `nil` denotes the nil polygon (as opposed to `0`, a non-nil polygon without
+// contours).  A contour whose text equals a contour already seen on this line (in `seen`, if not nil) is passed as the
+// SAME slice: operands that share contours.
+func parsePoly[T constraints.Float](t *tokens, seen map[string]poly.Contour[T]) poly.Polygon[T] {
+	if t.i < len(t.f) && t.f[t.i] == "nil" {
+		t.i++
+		return nil
+	}
 	nc := t.count(1 << 16)
 	p := make(poly.Polygon[T], nc)
 	for c := 0; c < nc; c++ {
+		start := t.i
 		nv := t.count(1 << 20)
 		p[c] = make(poly.Contour[T], nv)
 		for v := 0; v < nv; v++ {
@@ -106,6 +117,14 @@ func parsePoly[T constraints.Float](t *tokens) poly.Polygon[T] {
 				bad() // the text must denote the operand exactly
 			}
 			p[c][v] = geom.Point[T]{X: T(x), Y: T(y)}
+		}
+		if seen != nil && nv > 0 {
+			key := strings.Join(t.f[start:t.i], " ")
+			if prev, ok := seen[key]; ok {
+				p[c] = prev
+			} else {
+				seen[key] = p[c]
+			}
 		}
 	}
 	return p
@@ -176,14 +195,50 @@ func sameBits[T constraints.Float](p, q poly.Polygon[T]) bool {
 	return true
 }
 
+func apply[T constraints.Float](op string, a, b poly.Polygon[T]) poly.Polygon[T] {
+	switch op {
+	case "u":
+		return a.Union(b)
+	case "i":
+		return a.Intersect(b)
+	case "s":
+		return a.Sub(b)
+	case "x":
+		return a.Xor(b)
+	}
+	bad()
+	return nil
+}
+
+// emptyAgrees: Polygon.Empty must agree with "no contour has a vertex" (computed here, not by the library)
+func emptyAgrees[T constraints.Float](r poly.Polygon[T]) bool {
+	empty := true
+	for _, c := range r {
+		if len(c) != 0 {
+			empty = false
+		}
+	}
+	return r.Empty() == empty
+}
+
+func scribble[T constraints.Float](p poly.Polygon[T]) {
+	for _, c := range p {
+		for i := range c {
+			c[i].X += 1
+			c[i].Y = -c[i].Y - 3
+		}
+	}
+}
+
 func runT[T constraints.Float](op string, t *tokens) string {
+	seen := map[string]poly.Contour[T]{}
 	t.expect("A")
 	startA := t.i
-	a := parsePoly[T](t)
+	a := parsePoly[T](t, seen)
 	textA := strings.Join(t.f[startA:t.i], " ")
 	t.expect("B")
 	startB := t.i
-	b := parsePoly[T](t)
+	b := parsePoly[T](t, seen)
 	textB := strings.Join(t.f[startB:t.i], " ")
 	if t.i != len(t.f) {
 		bad()
@@ -192,33 +247,105 @@ func runT[T constraints.Float](op string, t *tokens) string {
 		b = a // identical operands are passed as the SAME slice (aliasing)
 	}
 	a0, b0 := deepCopy(a), deepCopy(b)
-	var r poly.Polygon[T]
-	switch op {
-	case "u":
-		r = a.Union(b)
-	case "i":
-		r = a.Intersect(b)
-	case "s":
-		r = a.Sub(b)
-	case "x":
-		r = a.Xor(b)
-	default:
-		bad()
-	}
+	r := apply(op, a, b)
 	if !sameBits(a, a0) || !sameBits(b, b0) {
 		return "operands-modified"
 	}
-	// Polygon.Empty must agree with "no contour has a vertex"
-	empty := true
-	for _, c := range r {
-		if len(c) != 0 {
-			empty = false
-		}
-	}
-	if r.Empty() != empty {
+	if !emptyAgrees(r) {
 		return "empty-mismatch"
 	}
-	return "R " + fmtPoly(r)
+	// the result must not share memory with an operand: overwrite the operands, the result must stay as it was
+	out := "R " + fmtPoly(r)
+	scribble(a)
+	if len(b) > 0 && (len(a) == 0 || &b[0] != &a[0]) {
+		scribble(b)
+	}
+	if "R "+fmtPoly(r) != out {
+		return "result-aliases-operand"
+	}
+	return out
+}
+
+func sameValues[T constraints.Float](p, q poly.Polygon[T]) bool {
+	if len(p) != len(q) {
+		return false
+	}
+	for i := range p {
+		if len(p[i]) != len(q[i]) {
+			return false
+		}
+		for j := range p[i] {
+			if bitsOf(p[i][j].X) != bitsOf(q[i][j].X) || bitsOf(p[i][j].Y) != bitsOf(q[i][j].Y) {
+				return false
+			}
+		}
+	}
+	return true
+}
+
+// runChain: `chain <ft> L <N> <m> (P <poly>)*m (S <op> <i>[c] <j>[c])*`: each step is one clipper call whose operands
+// are pool entries (initial polygons, or the polygons RETURNED by earlier steps, reused as they are); a `c` suffix
+// passes Polygon.Clone() of the entry (which must hold the same values).  After every step the whole pool is compared
+// with a snapshot (no operand modified), the result is overwritten and restored (it must not share memory with any pool
+// entry) and Polygon.Empty is cross-checked.  Output: `R <poly>` per step.
+func runChain[T constraints.Float](t *tokens) string {
+	t.expect("L")
+	t.count(1 << 20)
+	m := t.count(64)
+	seen := map[string]poly.Contour[T]{}
+	var pool []poly.Polygon[T]
+	for i := 0; i < m; i++ {
+		t.expect("P")
+		pool = append(pool, parsePoly[T](t, seen))
+	}
+	var sb strings.Builder
+	operand := func(tok string) poly.Polygon[T] {
+		clone := strings.HasSuffix(tok, "c")
+		idx, err := strconv.Atoi(strings.TrimSuffix(tok, "c"))
+		if err != nil || idx < 0 || idx >= len(pool) {
+			bad()
+		}
+		if !clone {
+			return pool[idx]
+		}
+		c := pool[idx].Clone()
+		if !sameValues(c, pool[idx]) {
+			panic("clone-differs")
+		}
+		return c
+	}
+	for t.i < len(t.f) {
+		t.expect("S")
+		op := t.next()
+		a := operand(t.next())
+		b := operand(t.next())
+		snap := make([]poly.Polygon[T], len(pool))
+		for i := range pool {
+			snap[i] = deepCopy(pool[i])
+		}
+		r := apply(op, a, b)
+		for i := range pool {
+			if !sameBits(pool[i], snap[i]) {
+				return sb.String() + "operands-modified"
+			}
+		}
+		if !emptyAgrees(r) {
+			return sb.String() + "empty-mismatch"
+		}
+		keep := deepCopy(r)
+		scribble(r)
+		for i := range pool {
+			if !sameBits(pool[i], snap[i]) {
+				return sb.String() + "result-aliases-operand"
+			}
+		}
+		for i := range r {
+			copy(r[i], keep[i])
+		}
+		sb.WriteString("R " + fmtPoly(r) + " ")
+		pool = append(pool, r)
+	}
+	return strings.TrimSpace(sb.String())
 }
 
 type area struct{ kind int }
@@ -257,9 +384,25 @@ func runLine(line string) string {
 	t := &tokens{f: strings.Fields(line)}
 	op := t.next()
 	ft := t.next()
+	if op == "chain" {
+		switch ft {
+		case "f32":
+			return runChain[float32](t)
+		case "f64":
+			return runChain[float64](t)
+		}
+		return "bad-op"
+	}
 	switch t.next() {
 	case "L":
 		t.count(1 << 20)
+	case "LT": // lattice at another magnitude: <N> <k> <ox> <oy>, coordinate = (lattice + offset) * 2^k
+		t.count(1 << 20)
+		for i := 0; i < 3; i++ {
+			if _, err := strconv.ParseInt(t.next(), 10, 64); err != nil {
+				bad()
+			}
+		}
 	case "P":
 		parseNum(t.next())
 		k := t.count(1 << 20)
@@ -292,6 +435,12 @@ func (a area) Gen(r *hx.Rng, n int, tier string, emit func(string)) {
 		case 5:
 			genDemo(r, emit)
 			return
+		case 6:
+			emit(genChain(r.Fork()))
+		case 7:
+			emit(genTinyGeneral(r.Fork()))
+		case 8:
+			emit(genTinyLattice(r.Fork()))
 		default:
 			emit(genLattice(r.Fork()))
 		}
@@ -303,5 +452,6 @@ func main() {
 		callTimeout = time.Duration(ms) * time.Millisecond
 	}
 	hx.Main(map[string]hx.Area{"lattice": area{kind: 0}, "general": area{kind: 1}, "degenerate": area{kind: 2},
-		"biglattice": area{kind: 3}, "biggeneral": area{kind: 4}, "demo": area{kind: 5}})
+		"biglattice": area{kind: 3}, "biggeneral": area{kind: 4}, "demo": area{kind: 5},
+		"chain": area{kind: 6}, "tinygeneral": area{kind: 7}, "tinylattice": area{kind: 8}})
 }
